@@ -13,8 +13,8 @@ One specification per property, three uses of TLC each:
 import json, os, re, concurrent.futures as cf
 from vlib import Infra, log, read_ndjson, write_ndjson
 
-PATH_SHAPES = list(range(1, 13))
-DATA_SHAPES = list(range(1, 16))
+PATH_SHAPES = list(range(1, 14))
+DATA_SHAPES = list(range(1, 19))
 
 
 def set_lit(xs):
@@ -242,7 +242,7 @@ def run_c18(ctx):
     ctx.build(["dv"])
     q = ctx.quick()
     me, ml = 3, 3
-    wide = [5, 7, 12, 15] if q else [s for s in DATA_SHAPES if s != 11]     # shapes explored with 3 list entries (the others with 2)
+    wide = [5, 7, 12, 15] if q else [s for s in DATA_SHAPES if s not in (11, 18)]     # shapes explored with 3 list entries (the others with 2)
     nrand, nmut = (600, 4) if q else (2000, 6)
     ctx.tlc("DataValidateMC", "DataValidateMC.cfg", workers=12, timeout=2400, heap="12g",
             consts={"Shapes": set_lit(DATA_SHAPES), "MaxEntries": me, "Wide": set_lit(wide), "MaxLL": ml})
